@@ -519,6 +519,7 @@ func (s *scope) resolveScoped(key instanceKey, descriptor *Descriptor) (any, err
 			return instance, nil
 		}
 
+		verifGate("R_claim", s)
 		s.instancesMu.Lock()
 		if instance, ok := s.instances[key]; ok {
 			s.instancesMu.Unlock()
